@@ -361,6 +361,7 @@ class CaseRun:
         case = self.case
         self.M: list[list[MG]] = []  # M[r][gi] = model of shared graph gi during round r
         cur = [world.world_model(g) for g in case["graphs"]]
+        self.M0 = list(cur)
         self.exp: dict[tuple, Any] = {}
         prev_models: dict[tuple, MG] = {}
         for r, rnd in enumerate(case["rounds"]):
@@ -378,7 +379,9 @@ class CaseRun:
                         if q is None or q["g"] >= len(cur):
                             self.exp[key] = None
                             continue
-                        m = cur[q["g"]]
+                        # a pre-built Identification holds its own copy of the graph taken when it was built
+                        # (before round 0); the other entry points look at the graph as it is now
+                        m = self.M0[q["g"]] if spec["op"] == "identify" else cur[q["g"]]
                         X, Y = set(q["X"]), set(q["Y"])
                         if not X or not Y or X & Y or not (X | Y) <= m.N or not m.is_acyclic():
                             self.exp[key] = None
@@ -455,7 +458,10 @@ class CaseRun:
         pname = pop["name"]
         graphs = [world.build_graph(h) for h in case["histories"]]
         for h in case["histories"]:
-            self.stats["faults"]["reorder"] += 1
+            f = self.stats["faults"]
+            f["reorder"] += 1
+            f["ctor:" + h["ctor"]] = f.get("ctor:" + h["ctor"], 0) + 1
+            f["dup"] += world.history_dups(h)
         shared_fp: dict[str, Any] = {f"g{i}": graph_fingerprint(g) for i, g in enumerate(graphs)}
         shared_obj: dict[str, Any] = {f"g{i}": g for i, g in enumerate(graphs)}
         flagged: set = set()
@@ -914,8 +920,6 @@ def query_fingerprint(qo: dict) -> tuple:
         ser_expr(ident.estimand),
         fingerprint_public(graph_fingerprint(ident.graph)),
         ident.query is q,
-        sorted(k for k in vars(q)),
-        sorted(k for k in vars(ident)),
     ]
     return (ids, content, graph_fingerprint(ident.graph)[:2])
 
